@@ -547,6 +547,7 @@ namespace bloch::runtime {
         m_gcRequested = false;
         m_gcThreadStarted = false;
         m_allocSinceGc = 0;
+        m_deferredDestructorError.reset();
         m_sim = QasmSimulator{m_collectQasmLog};
         bool hasClasses = !program.classes.empty();
         if (hasClasses) {
@@ -569,6 +570,7 @@ namespace bloch::runtime {
                 m_gcThread.join();
         }
         runCycleCollector();
+        rethrowDeferredDestructorError();
         // Ensure warnings appear before any normal echo output
         if (m_warnOnExit)
             warnUnmeasured();
@@ -1231,6 +1233,14 @@ namespace bloch::runtime {
 
     void RuntimeEvaluator::requestGc() { m_gcRequested = true; }
 
+    void RuntimeEvaluator::rethrowDeferredDestructorError() {
+        if (!m_deferredDestructorError)
+            return;
+        BlochError err = *m_deferredDestructorError;
+        m_deferredDestructorError.reset();
+        throw err;
+    }
+
     void RuntimeEvaluator::markObject(const std::shared_ptr<Object>& obj) {
         if (!obj || obj->marked)
             return;
@@ -1641,6 +1651,7 @@ namespace bloch::runtime {
 #endif
         if (m_gcRequested.load())
             runCycleCollector();
+        rethrowDeferredDestructorError();
         if (!s)
             return;
         auto isTruthy = [](const Value& v) {
@@ -2309,7 +2320,12 @@ namespace bloch::runtime {
                                  "cannot instantiate static or abstract class '" + cls->name + "'");
             }
             auto deleter = [this](Object* obj) {
-                destroyObject(obj, !obj->skipDestructor);
+                try {
+                    destroyObject(obj, !obj->skipDestructor);
+                } catch (const BlochError& err) {
+                    if (!m_deferredDestructorError)
+                        m_deferredDestructorError = err;
+                }
                 delete obj;
             };
             auto obj = std::shared_ptr<Object>(new Object{}, deleter);
